@@ -107,7 +107,12 @@ Inductive iop :=
 | RawSet (l : cls) (id : Z) (v : option Z)        (* UPDATE <table of l> SET <col> = v WHERE id = ..., behind the ORM's back *)
 | Sync (e : cls) (id : Z) (l : cls)                (* o = e.get(id); the instance of o's _parent chain at level l: .sync() *)
 | SyncUpdate (e : cls) (id : Z) (l : cls)
-| Expire (e : cls) (id : Z) (l : cls).
+| Expire (e : cls) (id : Z) (l : cls)
+(* through the object the program HOLDS for the row (the one handed out last; nothing is fetched): *)
+| HRead (id : Z) (l a : cls)              (* its _parent-chain instance of level l: read the ONE attribute owned by level a *)
+| HSet (id : Z) (a : cls) (v : inval)     (* assign the attribute owned by level a through the leaf; nothing is read back *)
+| HSync (id : Z) (l : cls)                (* .sync() on its chain instance of level l *)
+| HExpire (id : Z) (l : cls).
 
 Record ist := mkist { db : st; im : imap }.
 Definition iinit : ist := mkist init iempty.
@@ -150,6 +155,44 @@ Definition istep (auto : bool) (S : ist) (o : iop) : ist * res :=
   | Sync e id l => on_inst S e id l (fun s m => sync_up s m l id)
   | SyncUpdate e id l => on_inst S e id l (fun _ m => m)
   | Expire e id l => on_inst S e id l (fun _ m => expire_up m l id)
+  | HRead id l a =>
+      match born_as (db S) id with
+      | None => (S, RSkip)
+      | Some k =>
+          if memc l (chain k) && memc a (chain l) then
+            (* the read is delegated to the chain instance of level a; a missing attribute reloads that instance's row *)
+            let m' := iupd (im S) a id (mkslot (loadv (db S) a id (ci (im S a id))) (en (im S a id))) in
+            (mkist (db S) m', RObj (mkobj id a [shown m' a id]))
+          else (S, RSkip)
+      end
+  | HSync id l =>
+      match born_as (db S) id with
+      | None => (S, RSkip)
+      | Some k => if memc l (chain k) then (mkist (db S) (sync_up (db S) (im S) l id), ROk) else (S, RSkip)
+      end
+  | HExpire id l =>
+      match born_as (db S) id with
+      | None => (S, RSkip)
+      | Some k => if memc l (chain k) then (mkist (db S) (expire_up (im S) l id), ROk) else (S, RSkip)
+      end
+  | HSet id a v =>
+      match born_as (db S) id with
+      | None => (S, RSkip)
+      | Some k =>
+          if memc a (chain k) then
+            match validate v with
+            | inl x => (S, RErr x)
+            | inr ov =>
+                match sql_update a id ov (db S) with
+                | inl x => (S, RErr x)
+                | inr s' => (mkist s' (match ci (im S a id) with
+                                       | Some _ => iupd (im S) a id (mkslot (Some ov) (en (im S a id)))
+                                       | None => im S
+                                       end), ROk)
+                end
+            end
+          else (S, RSkip)
+      end
   | Old (Create k a unk) =>
       match step auto (db S) (Create k a unk) with
       | (s', RObj ob) => (mkist s' (fresh_slots s' (chain k) (oid ob) (im S)), RObj ob)
@@ -224,6 +267,7 @@ Definition entries_fresh (S : ist) (k : cls) (id : Z) : Prop :=
 
 
 (* sync() (true) or expire() (false) on the instance of level l of what e.get(id) hands out; ... on every level of ls *)
+Definition hrefresh_op (sync : bool) : Z -> cls -> iop := if sync then HSync else HExpire.
 Definition refresh_op (sync : bool) : cls -> Z -> cls -> iop := if sync then Sync else Expire.
 Definition all_levels (sync : bool) (e : cls) (id : Z) (ls : list cls) : list iop := map (refresh_op sync e id) ls.
 Definition no_raw (o : iop) : bool := match o with RawSet _ _ _ => false | _ => true end.
